@@ -211,7 +211,7 @@ func scalarIsSpecial(evs []model.Ev) bool {
 func init() {
 	register(&Property{
 		ID:   "C01",
-		Rule: "rapid draws a well-formed event stream (gen.Stream: nesting, boundary integers, float bit patterns, arbitrary byte strings, empty/duplicate/non-ASCII keys, announced/unknown lengths, extended events) x format x JSON options; non-trivial = the stream has more than one event, or its single scalar is a float, an integer outside [-24,23], or a string with a non-ASCII/escape byte or >= 23 bytes; distinct by hash of the whole case",
+		Rule: "rapid draws a well-formed event stream (gen.Stream: nesting, boundary integers, float bit patterns, arbitrary byte strings, empty/duplicate/non-ASCII keys, announced/unknown lengths, extended events; 1 in 40 a chain nested 31..140 deep with siblings in front of and behind the deep child at every level) x format x JSON options; deterministic part: nesting depths around every power of two up to 1024 as arrays, objects and alternating, with siblings on both sides of the deep child, announced and unknown lengths; non-trivial = the stream has more than one event, or its single scalar is a float, an integer outside [-24,23], or a string with a non-ASCII/escape byte or >= 23 bytes; distinct by hash of the whole case",
 		New:  func() any { return &C01Case{} },
 		Draw: func(t *rapid.T) any {
 			c := &C01Case{Format: rapid.SampledFrom(formatNames).Draw(t, "format")}
@@ -222,5 +222,6 @@ func init() {
 			return c
 		},
 		Check: checkC01,
+		Enum:  enumDeepStreams,
 	})
 }
